@@ -251,7 +251,7 @@ func genSettleHist(r *Rng, i int, tier string) []string {
 	full := r.Chance(1, 3)
 	fee := int64(1e12)
 	if !full {
-		fee = r.Pick(1000, 4000, 10000, 25000)
+		fee = r.Pick(1000, 4000, 10000, 25000, 1001, 3333, 7777)
 	}
 	bond := func(p string) int64 {
 		if p == "v1" && (directed || r.Chance(1, 2)) {
@@ -261,10 +261,10 @@ func genSettleHist(r *Rng, i int, tier string) []string {
 	}
 	tx("disp %s R0 %d %d %d", first, cat, fee, bond(first))
 	if !full {
-		n := 1 + r.Intn(4)
+		n := 1 + r.Intn(5)
 		for j := 0; j < n; j++ {
 			p := payers[r.Intn(len(payers))]
-			amt := r.Pick(1000, 3000, 7000, 20000, 1e12)
+			amt := r.Pick(1000, 3000, 7000, 20000, 1e12, 1001, 3333, 7777, 2501)
 			if j == n-1 && r.Chance(4, 5) {
 				amt = 1e12 // completes the fee
 			}
